@@ -2,12 +2,15 @@
 CFG = dict(
     claim="Theorems C17_source, C17_no_crash, C17_isolation, C17_live_traffic, C17_remove_step, C17_remove, C17_errors_reported, "
           "C17_shutdown, C17_shutdown_terminates and C17_errors_reported_run (the two (Q) theorems over EVERY maximal continuation by internal "
-          "rules, which exist and are bounded by the measure of Props/C16.v) (and C17_no_crash_refuted_before_D17d: the code before the D-17d repair could crash) in coq/Props/C17.v over all "
+          "rules, which exist and are bounded by the measure of Props/C16.v); C17_held_refines, C17_forward_completes (isolation: a forward once "
+          "begun can always be ended, whatever the other records do), C17_held_nothing_forwarded, C17_held_loop_no_loss about coq/Model/ProxyHeld.v, "
+          "the model with the single serve loop as a resource that can be busy (inside forwardRpc / inside the user's disconnect callback) (and C17_no_crash_refuted_before_D17d: the code before the D-17d repair could crash) in coq/Props/C17.v over all "
           "label sequences of the small-step model coq/Model/Proxy.v; the model is run lock-step against the real goat.Proxy on every run.",
     props="Props/C17.v",
     theorems=["C17_source", "C17_no_crash", "C17_no_crash_refuted_before_D17d", "C17_isolation", "C17_live_traffic",
               "C17_remove_step", "C17_remove", "C17_errors_reported", "C17_shutdown", "C17_shutdown_terminates",
-              "C17_errors_reported_run"],
+              "C17_errors_reported_run", "C17_held_refines", "C17_forward_completes", "C17_held_nothing_forwarded",
+              "C17_held_loop_no_loss"],
     imports=["Model.Proxy", "Check.C16c", "Check.C17c"],
     case_type="pxcase",
     find_bad_from="find_bad_from17",
